@@ -25,6 +25,7 @@ type c04Op struct {
 	Blob     int            `json:"blob,omitempty"`
 	Dash     bool           `json:"dash_digest,omitempty"`  // digest sent in the accepted sha256-<hex> spelling
 	Upper    bool           `json:"upper_digest,omitempty"` // digest sent with upper-case hex digits
+	Adapter  string         `json:"adapter,omitempty"`      // create-files: also names the pool's adapter file, digest spelled "colon" or "dash"
 	Template string         `json:"template,omitempty"`
 	System   string         `json:"system,omitempty"`
 	License  any            `json:"license,omitempty"`
@@ -96,6 +97,9 @@ func c04Gen(r *kit.Rand, idx int) c04Case {
 			op = c04Op{Op: "upload", Blob: r.Intn(3), From: kit.Pick(r, []string{"upper", "other", "dash-upper", "same", "short"})}
 		case k < 5 || len(live) == 0:
 			op = c04Op{Op: "create-files", Name: pick(), Blob: r.Intn(3), Dash: r.Chance(1, 6), Upper: r.Chance(1, 6)}
+			if r.Chance(1, 3) {
+				op.Adapter = kit.Pick(r, []string{"colon", "colon", "dash"})
+			}
 		case k < 8:
 			op = c04Op{Op: "create-from", Name: pick(), From: kit.Pick(r, live)}
 			if r.Chance(1, 3) {
@@ -161,6 +165,12 @@ func c04Gen(r *kit.Rand, idx int) c04Case {
 }
 
 type c04Viol struct{ Sig, What string }
+
+// c04AdapterFile: a GGUF of kind "adapter" (what create stores as an adapter layer next to the model layer)
+var c04AdapterFile = (&kit.GFile{
+	KVs:     []kit.GKV{kit.StrKV("general.architecture", "llama"), kit.StrKV("general.type", "adapter"), kit.U32KV("adapter.lora.alpha", 16)},
+	Tensors: []kit.GTensor{{Name: "blk.0.attn_q.weight.lora_a", Dims: []uint64{8}, Kind: 0, Data: make([]byte, 32)}},
+}).Bytes()
 
 // the chat template of the phi-3 family as GGUF files carry it (server/model.go detectChatTemplate recognises it)
 const c04ChatTemplate = "{% for message in messages %}{% if (message['role'] == 'user') %}{{'<|user|>' + '\n' + message['content'] + '<|end|>' + '\n' + '<|assistant|>' + '\n'}}{% elif (message['role'] == 'assistant') %}{{message['content'] + '<|end|>' + '\n'}}{% endif %}{% endfor %}"
@@ -275,6 +285,18 @@ func c04Run(bin, work string, c *c04Case, seed uint64, rep *kit.Report) (vs []c0
 				d = d[:7] + strings.ToUpper(d[7:])
 			}
 			req := map[string]any{"model": op.Name, "files": map[string]string{"model.gguf": d}}
+			if op.Adapter != "" {
+				// a LoRA adapter file (shared by every model that names it), its digest in either accepted spelling
+				ad := sha(c04AdapterFile)
+				if st, body := srv.UploadBlob(ad, c04AdapterFile); st != 201 && st != 200 {
+					viol("c04:blob-upload-failed", fmt.Sprintf("op %d: upload of the adapter blob answered %d %s", oi, st, body))
+					return vs, ""
+				}
+				if op.Adapter == "dash" {
+					ad = strings.Replace(ad, ":", "-", 1)
+				}
+				req["adapters"] = map[string]string{"adapter.gguf": ad}
+			}
 			c04Overrides(req, op)
 			res = srv.Create(req, nil)
 		case "create-from":
@@ -567,7 +589,7 @@ func runC04() {
 	rep := kit.NewReport("C04")
 	cfg := rep.Cfg()
 	defer rep.Flush()
-	rep.Set("rule", "case i = PRNG(seed,'C04',i): 7-15 operations through the public API of the real server binary over a pool of 12 names (case variants, namespaces, a second host) x 6 tags: create from uploaded GGUF blobs (pool of 3, two of which carry a chat template the server recognises so that models made from them share generated template/parameter layers; new names are 1 in 4 another letter-case spelling of a name used earlier; digest sent as sha256:<hex> or sha256-<hex>, sometimes with upper-case hex), create from an existing model with template/system/license/parameter overrides (1 in 12 template overrides is one the server rejects), copy, delete (also by case variant), blob uploads under a digest that does not match the content (other letter case, another digest, too short) or repeated correct uploads, fault-free pull of published models that share blobs with the created ones, show, planted debris (an empty or truncated manifest file under a sibling tag of an existing model, as an interrupted create/copy/pull leaves it), restart (start-up prune, or OLLAMA_NOPRUNE); every history ends with a pruning restart. After every operation the store directory is read and re-hashed: every listed model shows and has all layers + config with matching size/SHA-256; manifests and blobs of models not named by the operation are byte-identical; after a pruning restart blobs == referenced digests; no two listed names equal under case folding; created => listed, deleted => not listed, copied => same manifest. Non-trivial & distinct = distinct (op-kind sequence, outcomes) among histories in which at least two models shared a blob when a delete/create/prune ran")
+	rep.Set("rule", "case i = PRNG(seed,'C04',i): 7-15 operations through the public API of the real server binary over a pool of 12 names (case variants, namespaces, a second host) x 6 tags: create from uploaded GGUF blobs (1 in 3 together with one shared LoRA adapter file named in the request's adapters map, its digest in either accepted spelling; pool of 3, two of which carry a chat template the server recognises so that models made from them share generated template/parameter layers; new names are 1 in 4 another letter-case spelling of a name used earlier; digest sent as sha256:<hex> or sha256-<hex>, sometimes with upper-case hex), create from an existing model with template/system/license/parameter overrides (1 in 12 template overrides is one the server rejects), copy, delete (also by case variant), blob uploads under a digest that does not match the content (other letter case, another digest, too short) or repeated correct uploads, fault-free pull of published models that share blobs with the created ones, show, planted debris (an empty or truncated manifest file under a sibling tag of an existing model, as an interrupted create/copy/pull leaves it), restart (start-up prune, or OLLAMA_NOPRUNE); every history ends with a pruning restart. After every operation the store directory is read and re-hashed: every listed model shows and has all layers + config with matching size/SHA-256; manifests and blobs of models not named by the operation are byte-identical; after a pruning restart blobs == referenced digests; no two listed names equal under case folding; created => listed, deleted => not listed, copied => same manifest. Non-trivial & distinct = distinct (op-kind sequence, outcomes) among histories in which at least two models shared a blob when a delete/create/prune ran")
 	rep.Set("assumptions", []string{"operations are issued one at a time (concurrent store operations are C15's subject)", "create-from is only issued for sources that exist (a missing source would contact the public registry)"})
 	bin := os.Getenv("VERIF_OLLAMA_BIN")
 	work, err := os.MkdirTemp("", "verif-c04-")
